@@ -299,7 +299,13 @@ pub fn kvs_held_cursor(seed: u64, worker: usize, slot: &Slot) {
     if tight {
         o.push(("--max-open-files", rng.pick(&[8u64, 16]).to_string()));
     }
-    let kvs = Arc::new(KeyValueStore::open(options(&dir, &o)).unwrap_or_else(|e| violation("open-error", format!("{e}"))));
+    // a third of the executions: offline verifier passes (trash clean-up) under the held cursor
+    let with_verifier = rng.chance(1, 3);
+    if with_verifier {
+        o.push(("--mani-log-rollover-ratio", rng.pick(&[0u64, 1]).to_string()));
+    }
+    let opts = options(&dir, &o);
+    let kvs = Arc::new(KeyValueStore::open(opts.clone()).unwrap_or_else(|e| violation("open-error", format!("{e}"))));
     let daemons = start_daemons(&kvs, rng.range(1, 2) as usize);
     let nkeys = 5usize;
     let second_writer = rng.chance(1, 3);
@@ -338,6 +344,23 @@ pub fn kvs_held_cursor(seed: u64, worker: usize, slot: &Slot) {
         listing(&mut b).unwrap_or_else(|e| violation("twin-cursor-error", e))
     };
     let opened_at_id = id;
+    let verifier_passes = Arc::new(AtomicU64::new(0));
+    let verifier = if with_verifier {
+        let passes = Arc::clone(&verifier_passes);
+        let n = rng.range(2, 6);
+        Some(thread::spawn(move || {
+            for _ in 0..n {
+                // errors of the verifier itself are C04's and C08's business, not this scenario's
+                if let Ok(mut v) = lsmtk::LsmVerifier::open(opts.clone()) {
+                    let _ = v.verify();
+                    passes.fetch_add(1, Ordering::SeqCst);
+                }
+                thread::sleep(std::time::Duration::ZERO);
+            }
+        }))
+    } else {
+        None
+    };
     // phase 2: keep writing so that rollovers, flushes and compactions happen under the cursor
     let mut uses = 0;
     for round in 0..rng.range(2, 5) {
@@ -405,6 +428,9 @@ pub fn kvs_held_cursor(seed: u64, worker: usize, slot: &Slot) {
         }
     }
     drop(a);
+    if let Some(v) = verifier {
+        let _ = v.join();
+    }
     stop_writer.store(1, Ordering::SeqCst);
     if let Some(w) = writer {
         let _ = w.join();
@@ -418,6 +444,7 @@ pub fn kvs_held_cursor(seed: u64, worker: usize, slot: &Slot) {
     *r.probes.entry("cursor_uses_after_store_moved".into()).or_insert(0) += uses;
     *r.probes.entry("cursor_background_work_units_under_cursor".into()).or_insert(0) += work;
     *r.probes.entry("cursor_executions_with_second_writer".into()).or_insert(0) += second_writer as u64;
+    *r.probes.entry("cursor_verifier_passes_under_cursor".into()).or_insert(0) += verifier_passes.load(Ordering::SeqCst);
     r.sample = Some(serde_json::json!({"tight_files": tight, "second_writer": second_writer, "reference_len": reference.len(), "background_work": work}));
     drop(r);
     drop(kvs);
